@@ -25,7 +25,11 @@ MANIFEST = {
             "hypothesis; the Bech32 text layer of SLIP-32 is an abstract codec in the theorems and a BIP-173 reference "
             "implementation in the correspondence run. F12 (SLIP-32 short payload -> IndexError) has been repaired in /repo "
             "(now ValueError); the model follows the repaired code and proves that only ValueError / Bech32 errors escape. "
-            "Open finding C05-KHOLAW-ZERO-SCALAR: a Kholaw private key with a zero scalar is rejected with a bare ValueError.",
+            "Open finding C05-KHOLAW-ZERO-SCALAR: a Kholaw private key with a zero scalar is rejected with a bare ValueError. "
+            "LINKED: the slip32_*_concrete theorems instantiate SLIP-32 on the Bech32 model of C10 (no codec hypothesis, no oracle "
+            "at all); the abstract law 'decode(encode d) = d for every HRP' is false of the real codec (upper-case / empty HRP), the "
+            "concrete round trips carry the premise 'HRP well-formed', discharged by computation for xpub/xprv; the link.slip32c_* "
+            "entries run SLIP-32 entirely inside the extracted model.",
     "technique": "Coq proof (list slicing / fixed-width integer lemmas on top of the Base58 canonicity proofs) + "
                  "generated-constant obligations + extracted-model differential run + direct spec recomputation",
     "ref": "7/C05",
